@@ -1,5 +1,5 @@
 SPECIFICATION Spec
-CONSTANTS CatFile = "Place_catalogue_t.json"  MaxCons = 2  MaxSpec = 9  EarlyBreak = FALSE  SkipKnown = FALSE
+CONSTANTS CatFile = "Place_catalogue_t.json"  MaxCons = 2  MaxSpec = 2  EarlyBreak = FALSE  SkipKnown = FALSE
 INVARIANT Confluence
 INVARIANT Soundness
 INVARIANT PassItemsCommute
